@@ -23,7 +23,7 @@ for d in sorted(glob.glob(ROOT + "/seeded/*/")):
     else:
         parts = name.split("-")
         pid, n = parts[0], parts[-1]
-        meta["round"] = 2 if "r2" in parts else 3 if "r3" in parts else 1
+        meta["round"] = next((int(x[1:]) for x in parts if len(x) == 2 and x[0] == "r" and x[1].isdigit()), 1)
         meta["breaks_property"] = pid
         meta["kind"] = "written by an independent sub-agent that saw only the property text and a scratch worktree"
         res_file = RES + "/%s.txt" % name
